@@ -364,6 +364,11 @@ class World:
                 raise NameError("name 'get_ipython' is not defined")
             return object()
 
+        def v_len(x):
+            h = getattr(x, "sym_len", None)
+            return h() if h is not None else len(x)
+
+        b["len"] = v_len
         b.update(print=v_print, open=v_open, int=_IntProxy(v_int), bool=_BoolProxy(v_bool),
                  range=v_range, bytes=v_bytes, float=_FloatProxy(v_float), __import__=v_import)
         if self.ipython:
@@ -981,7 +986,15 @@ class Interp:
             if k is None:
                 d.update(self.ev(v, fr))
             else:
-                d[self.ev(k, fr)] = self.ev(v, fr)
+                kk = self.ev(k, fr)
+                if _is_sym(kk) and isinstance(d, dict):
+                    # a literal keyed by a symbolic int: continue as a symbolic map
+                    from .symcoll import SymMap
+                    m = SymMap.empty("lit")
+                    for k0, v0 in d.items():
+                        m[k0] = v0
+                    d = m
+                d[kk] = self.ev(v, fr)
         return d
 
     def e_JoinedStr(self, n, fr):
@@ -1163,8 +1176,11 @@ class Interp:
 
     def e_ListComp(self, n, fr):
         out = []
-        cf = self._comp_frame(n, fr)
         first = self.ev(n.generators[0].iter, fr)
+        h = getattr(first, "sym_listcomp", None)
+        if h is not None:
+            return h(self, n, fr)
+        cf = self._comp_frame(n, fr)
         self._comp_iter(n, n.generators, fr, cf, lambda c: out.append(self.ev(n.elt, c)), first)
         return out
 
